@@ -62,7 +62,7 @@ def run(patch, ids, only=None):
     try:
         for pid in ids:
             cmd = "./check %s%s" % (pid, (" --only " + only) if only else "")
-            rc, out = sh(cmd, cwd=ROOT, timeout=7200)
+            rc, out = sh("VERIF_EVIDENCE_DIR=/tmp/seed-evidence " + cmd, cwd=ROOT, timeout=7200)
             sigs = [l.strip()[:300] for l in out.splitlines() if l.strip().startswith("violated:")]
             inconcl = [l.strip()[:300] for l in out.splitlines() if l.startswith("INCONCLUSIVE")]
             results[pid] = dict(rc=rc, signatures=sigs[:6], inconclusive=inconcl[:3])
